@@ -465,9 +465,9 @@ class ObjRef:
 class V:
     """abstract value"""
 
-    __slots__ = ("kind", "term", "shape", "const", "has_const", "items", "obj", "orig", "labels", "func", "loc", "dim", "extra")
+    __slots__ = ("kind", "term", "shape", "const", "has_const", "items", "obj", "orig", "labels", "func", "loc", "dim", "extra", "view")
 
-    def __init__(self, kind, term, shape=None, const_=None, has_const=False, items=None, obj=None, orig=frozenset(), labels=frozenset(), func=None, loc=None, dim=None, extra=None):
+    def __init__(self, kind, term, shape=None, const_=None, has_const=False, items=None, obj=None, orig=frozenset(), labels=frozenset(), func=None, loc=None, dim=None, extra=None, view=None):
         self.kind = kind  # arr int float bool none str tuple list dict obj func slice unk mod cls scorer
         self.term = term
         self.shape = shape
@@ -481,6 +481,7 @@ class V:
         self.loc = loc
         self.dim = dim
         self.extra = extra
+        self.view = view  # index term of the base array this value is a basic view of (set once it is written through)
 
     def replace(self, **kw):
         d = {k: getattr(self, k) for k in V.__slots__}
